@@ -15,6 +15,7 @@ pub mod engine;
 pub mod hal;
 pub mod mmio;
 pub mod tracer;
+pub mod crash;
 pub mod dev;
 pub mod ring;
 pub mod qcore;
@@ -40,6 +41,7 @@ pub mod c18;
 pub mod c19;
 pub mod c20;
 pub mod c20_sound;
+pub mod c07;
 pub mod replay;
 
 pub use engine::chooser::{choose, deviate};
